@@ -219,6 +219,28 @@ func (s *Sym) MakeFn(name string, args ...*RF) *RF {
 				return s.MakeFn("len", at.Args[0])
 			}
 		}
+	case "builtin:min", "builtin:max":
+		// the Go 1.21 builtins on integers are the choice between their arguments (on floats
+		// they differ from a `<` choice for NaN and signed zeros, and stay opaque)
+		if len(args) >= 2 {
+			allInt := true
+			for _, a := range args {
+				if !s.Integral(a) {
+					allInt = false
+				}
+			}
+			if allInt {
+				acc := args[0]
+				for _, a := range args[1:] {
+					if name == "builtin:min" {
+						acc = s.Ite(s.Cmp("<", a, acc), a, acc)
+					} else {
+						acc = s.Ite(s.Cmp("<", acc, a), a, acc)
+					}
+				}
+				return acc
+			}
+		}
 	case "builtin:append":
 		// append([]T(nil), xs...) is a fresh copy of xs (the same thing as make+copy)
 		if len(args) == 2 {
@@ -249,6 +271,14 @@ func (s *Sym) MakeFn(name string, args ...*RF) *RF {
 	case "not":
 		return s.Not(args[0])
 	default:
+		// slices.Clone(x) is a fresh copy of x (package slices, Go 1.21)
+		if strings.HasPrefix(name, "slices.Clone[") && len(args) == 1 {
+			return s.Fn("copyof", args[0])
+		}
+		// slices.Clip(x) is x with its capacity cut to its length: the same elements
+		if strings.HasPrefix(name, "slices.Clip[") && len(args) == 1 {
+			return args[0]
+		}
 		// a struct rebuilt from all the projections of one value is that value
 		if strings.HasPrefix(name, "mk:") && len(args) > 0 {
 			tn := name[3:]
